@@ -126,3 +126,52 @@ func HarnessC16_SpreadFilter() {
 	}
 	vfCover("c16-filter-done")
 }
+
+func init() { vfRegister("HarnessC16_Zones", HarnessC16_Zones) }
+
+// HarnessC16_Zones: the zone index of the spread-minimising generator is a
+// function of the SET of configured zones, not of the order in which they are
+// listed: whoever computes the tokens of (instance, zone) gets the same ones.
+// Every ordering of 1..3 zone names (with one of the names sorting differently
+// by length and by bytes) and every member zone.
+func HarnessC16_Zones() {
+	names := []string{"zone-b", "zone-a", "zone-c", "zone-10"}
+	perms3 := [][]int{{0, 1, 2}, {0, 2, 1}, {1, 0, 2}, {1, 2, 0}, {2, 0, 1}, {2, 1, 0}}
+	pick := vfChoice("subset", 4) // which name is left out (3 = none of the first three: use 0,1,3)
+	var set []string
+	switch pick {
+	case 0:
+		set = []string{names[1], names[2], names[3]}
+	case 1:
+		set = []string{names[0], names[2], names[3]}
+	case 2:
+		set = []string{names[0], names[1], names[3]}
+	default:
+		set = []string{names[0], names[1], names[2]}
+	}
+	p := perms3[vfChoice("order", 6)]
+	listed := []string{set[p[0]], set[p[1]], set[p[2]]}
+	zone := set[vfChoice("zone", 3)]
+	// reference: position of the zone among the configured zones in byte order
+	want := 0
+	for _, z := range set {
+		if z < zone {
+			want++
+		}
+	}
+	inst := vfChoice("instance", 2)
+	g, err := NewSpreadMinimizingTokenGenerator("ingester-"+zone+"-"+[]string{"0", "12"}[inst], zone, listed, false)
+	vfAssert(err == nil, "C16 generator is created for a configured zone")
+	if err != nil {
+		return
+	}
+	vfObserve("zoneid", g.zoneID)
+	vfAssert(g.zoneID == want, "C16 the zone index does not depend on the order in which the zones are listed")
+	vfAssert(g.instanceID == []int{0, 12}[inst], "C16 the instance index is the numeric suffix of the instance id")
+	first := g.generateFirstInstanceTokens()
+	vfAssert(len(first) == optimalTokensPerInstance && int(first[0]%maxZonesCount) == want && int(first[len(first)-1]%maxZonesCount) == want,
+		"C16 tokens are congruent to the zone index modulo the maximum zone count")
+	_, err = NewSpreadMinimizingTokenGenerator("ingester-0", "zone-x", listed, false)
+	vfAssert(err != nil, "C16 a zone that is not configured is rejected")
+	vfCover("c16-zones-done")
+}
